@@ -52,6 +52,8 @@ def plan(tier):
                 except spec.Reject:
                     continue
                 units.append(('hist', r, i, j))
+    for r in roots[:2]:
+        units.append(('scale', r))
     return {
         'units': units,
         'rule': 'explicit-state BFS per main encoding: a state is the frozen '
@@ -140,7 +142,53 @@ def run_hist_unit(unit, tier):
     return acc
 
 
+def run_scale_unit(unit, tier):
+    """From every canonical state of the closed graph: a LARGE preamble /
+    metadata section (around the 1024 / 8192 / 65536 thresholds) with each
+    encoding choice, own or inherited."""
+    root = unit[1]
+    acc = Acc()
+    g = scope_graph(root, scope_events(wrgraph.SCOPE_ENCODINGS), 9,
+                    state_cap=400)
+    sizes = [1100, 8300, 66000]
+    for key, hist in sorted(g['seen'].items(), key=lambda kv: repr(kv[1])):
+        calls0 = [list(c) for c in hist]
+        prev, scope, d = spec.track(calls0, root)
+        kinds = spec.legal_kinds(prev, d)
+        for kind in ('preamble', 'meta'):
+            if kind not in kinds:
+                continue
+            for enc in wrgraph.SCOPE_ENCODINGS:
+                for n in sizes:
+                    if kind == 'preamble':
+                        ev = ['preamble', ('é' + 'x' * 38 + '\n') * (n // 40),
+                              enc, 4, None, None]
+                    else:
+                        ev = ['meta', {'k': ['é' * 20] * (n // 130)}, enc]
+                    calls = calls0 + [ev]
+                    viols, ex = check_history(calls, root)
+                    acc.evals += 1
+                    acc.transitions += 1
+                    acc.validated += 1
+                    acc.nontrivial += 1
+                    for k_, msg in viols:
+                        acc.violation(k_ + ':scale', '%s\nhistory %r + %d-'
+                                      'byte %s with encoding %r'
+                                      % (msg[:600], [c[:2] for c in calls0],
+                                         n, kind, enc),
+                                      {'kind': 'scale', 'root': root,
+                                       'hist': to_jsonable(calls0),
+                                       'skind': kind, 'enc': enc, 'n': n})
+                    acc.outcome('ok' if not viols else 'violation')
+    acc.states = len(g['seen'])
+    acc.sample({'scale': 'large sections from every canonical state',
+                'root': root}, 1)
+    return acc
+
+
 def run_unit(unit, tier):
+    if unit[0] == 'scale':
+        return run_scale_unit(unit, tier)
     if unit[0] == 'hist':
         return run_hist_unit(unit, tier)
     root = unit[1]
@@ -189,6 +237,16 @@ def run_unit(unit, tier):
 
 
 def replay(payload):
+    if payload.get('kind') == 'scale':
+        n, enc = payload['n'], payload['enc']
+        if payload['skind'] == 'preamble':
+            ev = ['preamble', ('é' + 'x' * 38 + '\n') * (n // 40), enc, 4,
+                  None, None]
+        else:
+            ev = ['meta', {'k': ['é' * 20] * (n // 130)}, enc]
+        viols, ex = check_history(from_jsonable(payload['hist']) + [ev],
+                                  payload['root'])
+        return [{'key': k + ':scale', 'msg': m} for k, m in viols]
     if payload.get('kind') != 'history':
         return []
     calls = from_jsonable(payload['calls'])
